@@ -10,7 +10,7 @@ on the real interpreter.
 import copy, json
 from vlib import MachineryError
 
-FAMILIES = ['assign', 'cond', 'loop', 'concat', 'call', 'const', 'pattern', 'flow', 'misc', 'fracconst']
+FAMILIES = ['assign', 'cond', 'loop', 'concat', 'call', 'const', 'pattern', 'flow', 'misc', 'fracconst', "builtins2"]
 
 
 def corrupt(case, rnd):
